@@ -5,10 +5,31 @@ from pyvc.spec import ContractSet
 ST = ContractSet()
 
 
-@ST.contract("skepticoin.coinstate.CoinState.add_block_no_validation", props=["C03", "C04"])
+# the whole view of the new state, field by field (the frame is part of it: every other entry is the old one)
+NEW_STATE = [
+    "result.block_by_hash == self.block_by_hash.set(h, block)",
+    "result.unspent_transaction_outs_by_hash == self.unspent_transaction_outs_by_hash.set(h,"
+    " uto_apply_block(ite(prev == ZERO32, EMPTY_UTXO, self.unspent_transaction_outs_by_hash[prev]), block))",
+    "implies(prev != ZERO32, result.block_by_height_by_hash == self.block_by_height_by_hash.set(h,"
+    " self.block_by_height_by_hash[prev].set(block.header.summary.height, block)))",
+    "implies(prev == ZERO32, h in result.block_by_height_by_hash and 0 in result.block_by_height_by_hash[h]"
+    " and result.block_by_height_by_hash[h][0] == block)",
+    "result.heads == self.heads.delete(prev).set(h, block)",
+    # fork choice as the statement has it: the head changes only for the first block, for a child of the head, or for
+    # a block with strictly more total work (height) than the head
+    "result.current_chain_hash == (h if (self.current_chain_hash is None or self.current_chain_hash == prev"
+    " or block.header.summary.height > self.block_by_hash[self.current_chain_hash].header.summary.height)"
+    " else self.current_chain_hash)",
+    "result.public_key_balances_by_hash.block_by_hash == result.block_by_hash",
+]
+
+
+@ST.contract("skepticoin.coinstate.CoinState.add_block_no_validation", props=["C01", "C02", "C03", "C04"])
 def _(c):
     c.summary("apply_block")
-    c.trust("placeholder while C03/C04 contracts are being built: the new state is a function of (state, block)")
+    c.let(h="block.hash()", prev="block.header.summary.previous_block_hash")
+    # no precondition: on a state that lacks the parent's entries the function raises KeyError (a rejection)
+    c.ensures(*NEW_STATE)
 
 
 @ST.contract("skepticoin.coinstate.CoinState.add_block", props=["C01", "C02", "C05"])
@@ -19,3 +40,12 @@ def _(c):
               "result == self.add_block_no_validation(block)")
     # rejected ==> some validator (or the application) refused; `self` is a value object, any write to it on any path
     # is reported by the :frame obligation ("the chain state the node held before is left exactly as it was")
+
+
+
+
+@ST.contract("skepticoin.balances.uto_apply_block", props=["C02", "C03"])
+def _(c):
+    c.summary("uto_block")
+    c.returns(MAP(CLS('OutputReference'), CLS('Output')))
+    c.trust("placeholder: the applied set is a function of (set, block); its definition is verified next")
